@@ -150,6 +150,39 @@ def run(repo, rep):
                       'indexing a never-empty result', 'the warning helper evaluates %s, which raises IndexError when the sequence is empty '
                       '(e.g. an exception with an empty message): the failure handler itself fails and the error escapes the value being '
                       'printed' % src(c), nontrivial=True)
+    # a format template built from the failure itself (exception text, traceback lines, the value's repr) is parsed for replacement fields:
+    # a '{' or '}' in it makes str.format raise inside the handler
+    wdefs = {}
+    for a in ast.walk(warn.node):
+        if isinstance(a, ast.Assign) and len(a.targets) == 1 and isinstance(a.targets[0], ast.Name):
+            wdefs.setdefault(a.targets[0].id, []).append(a.value)
+
+    def const_text(e, depth=0):
+        if isinstance(e, ast.Constant) and isinstance(e.value, str):
+            return True
+        if isinstance(e, ast.BinOp) and isinstance(e.op, ast.Add):
+            return const_text(e.left, depth) and const_text(e.right, depth)
+        if isinstance(e, ast.Name) and depth < 4:
+            ds = wdefs.get(e.id)
+            if ds:
+                return all(const_text(d, depth + 1) for d in ds)
+            r_ = repo.resolve(warn.module, e.id)
+            return bool(r_ and r_[0] == 'assign' and all(const_text(v, depth + 1) for v in r_[1])) if r_ else False
+        return False
+    for c in ast.walk(warn.node):
+        tmpl = None
+        if isinstance(c, ast.Call) and isinstance(c.func, ast.Attribute) and c.func.attr in ('format', 'format_map'):
+            tmpl = c.func.value
+        elif isinstance(c, ast.BinOp) and isinstance(c.op, ast.Mod) and not (isinstance(c.left, ast.Constant) and not isinstance(c.left.value, str)):
+            tmpl = c.left if not isinstance(c.left, ast.Constant) or isinstance(c.left.value, str) else None
+        if tmpl is None:
+            continue
+        n += 1
+        rep.check(const_text(tmpl), 'C14.b', 'warn-helper:format-template-is-constant', '%s:%d' % (warn.module.relpath, c.lineno),
+                  'the message template is a constant; the failure is only substituted into it',
+                  'the warning helper uses %s as a format template, which contains text taken from the failure: a brace (or %%) in the exception '
+                  'message or in a traceback line makes the formatting raise inside the handler, and the error escapes instead of degrading '
+                  'the one value to its repr' % src(tmpl)[:80].replace('\n', ' '), nontrivial=True)
     rep.count(n)
 
     # ---------------------------------------------------------------- C14.c
